@@ -7,6 +7,7 @@ use std::collections::BTreeMap;
 pub mod c09;
 pub mod c12;
 pub mod c18;
+pub mod c26;
 pub mod c28;
 pub mod c30;
 pub mod c31;
@@ -100,6 +101,7 @@ pub fn make(id: &str) -> Option<Box<dyn Check>> {
         "C09" => Some(Box::new(c09::C09::new())),
         "C12" => Some(Box::new(c12::C12::new())),
         "C18" => Some(Box::new(c18::C18::new())),
+        "C26" => Some(Box::new(c26::C26::new())),
         "C28" => Some(Box::new(c28::C28::new())),
         "C30" => Some(Box::new(c30::C30::new())),
         "C31" => Some(Box::new(c31::C31::new())),
